@@ -1620,6 +1620,90 @@ def inline_private_helpers(fn, functions, listed, depth=0):
     return new
 
 
+def beta_reduce_lambdas(fn):
+    """AST pre-pass (after helper inlining): a local name that is bound exactly once, by `name = lambda p1, …, pn: body`,
+    whose body is an effect-free expression (attribute / subscript loads, comparisons, boolean and arithmetic operators,
+    names, constants, conditional expressions - no call, lambda, comprehension, walrus, await or yield) and whose every
+    other occurrence is a direct call `name(a1, …, an)` with simple positional arguments (names, attribute chains,
+    constants) has each call replaced by the body with the parameters replaced by the arguments, and the binding is
+    dropped.  Python looks the free variables of a closure up when it is CALLED, in the scope of the function that
+    created it, which is exactly where and when the substituted expression reads them; a comprehension is a scope of its
+    own, so the reduction is not made when a free variable or an argument name could be captured by a comprehension
+    variable.  Needed for helpers that take a predicate (harmless C14-6: `_split_notes(notes, lambda note: …)`)."""
+    OK = (ast.Attribute, ast.Subscript, ast.Compare, ast.BoolOp, ast.UnaryOp, ast.BinOp, ast.Name, ast.Constant, ast.IfExp,
+          ast.Load, ast.And, ast.Or, ast.Not, ast.USub, ast.UAdd, ast.Invert, ast.operator, ast.cmpop, ast.Tuple, ast.Index
+          if hasattr(ast, 'Index') else ast.Tuple, ast.Slice)
+    stores, lambdas = {}, {}
+    for x in ast.walk(fn):
+        if isinstance(x, ast.Name) and isinstance(x.ctx, (ast.Store, ast.Del)):
+            stores[x.id] = stores.get(x.id, 0) + 1
+        if isinstance(x, ast.arg):
+            stores[x.arg] = stores.get(x.arg, 0) + 1
+    comp_vars = set()
+    for x in ast.walk(fn):
+        if isinstance(x, ast.comprehension):
+            comp_vars.update(t.id for t in ast.walk(x.target) if isinstance(t, ast.Name))
+    for x in ast.walk(fn):
+        if isinstance(x, ast.Assign) and len(x.targets) == 1 and isinstance(x.targets[0], ast.Name) \
+                and isinstance(x.value, ast.Lambda) and stores.get(x.targets[0].id) == 1:
+            lam = x.value
+            a = lam.args
+            if a.vararg or a.kwarg or a.kwonlyargs or a.posonlyargs or a.defaults or not a.args:
+                continue
+            if not all(isinstance(y, OK) for y in ast.walk(lam.body)):
+                continue
+            params = [q.arg for q in a.args]
+            free = {y.id for y in ast.walk(lam.body) if isinstance(y, ast.Name)} - set(params)
+            if free & comp_vars:
+                continue
+            lambdas[x.targets[0].id] = (params, lam.body, x)
+    if not lambdas:
+        return fn
+    # every other occurrence of the name must be the function position of a call with simple positional arguments
+    def simple(e):
+        while isinstance(e, ast.Attribute):
+            e = e.value
+        return isinstance(e, (ast.Name, ast.Constant))
+    calls = {name: [] for name in lambdas}
+    uses = {name: 0 for name in lambdas}
+    for x in ast.walk(fn):
+        if isinstance(x, ast.Name) and isinstance(x.ctx, ast.Load) and x.id in lambdas:
+            uses[x.id] += 1
+        if isinstance(x, ast.Call) and isinstance(x.func, ast.Name) and x.func.id in lambdas:
+            calls[x.func.id].append(x)
+    good = set()
+    for name, (params, body, _) in lambdas.items():
+        cs = calls[name]
+        if cs and uses[name] == len(cs) and all(
+                not c.keywords and len(c.args) == len(params) and all(simple(e) for e in c.args) for c in cs):
+            good.add(name)
+    if not good:
+        return fn
+    import copy as _copy
+
+    class Beta(ast.NodeTransformer):
+        def visit_Call(self, n):
+            self.generic_visit(n)
+            if isinstance(n.func, ast.Name) and n.func.id in good:
+                params, body, _ = lambdas[n.func.id]
+                sub = dict(zip(params, n.args))
+
+                class Sub(ast.NodeTransformer):
+                    def visit_Name(self, m):
+                        return _copy.deepcopy(sub[m.id]) if m.id in sub else m
+                return ast.copy_location(Sub().visit(_copy.deepcopy(body)), n)
+            return n
+
+        def visit_Assign(self, n):
+            if any(n is lambdas[g][2] for g in good):
+                return ast.copy_location(ast.Pass(), n)
+            self.generic_visit(n)
+            return n
+    new = Beta().visit(fn)
+    ast.fix_missing_locations(new)
+    return new
+
+
 class World:
     """all operations translated from one module."""
 
@@ -1631,7 +1715,7 @@ class World:
         raw = {n.name: n for n in self.tree.body if isinstance(n, ast.FunctionDef)}
         listed = {py for _, py, _, _ in LISTED}
         import copy as _copy
-        self.functions = {name: split_tuple_lists(inline_private_helpers(_copy.deepcopy(n), raw, listed))
+        self.functions = {name: split_tuple_lists(beta_reduce_lambdas(inline_private_helpers(_copy.deepcopy(n), raw, listed)))
                           for name, n in raw.items()}
         self.scalar_attrs, self.pb_attrs = schema_attrs()
         self.ops = {}
